@@ -9,7 +9,10 @@ bind : S->C. TLC verifies Exact on every exported pair and exports (from, to, ex
        expected one as a multiset with the right kind flags; the same pair with permuted declaration order must give the same
        set; self / deep-copy / permuted-copy diffs must be empty. Type matrix: the model is parametric in its type ids, so the exported
        ChangeType pairs are re-run with T1 / T2 bound to every ordered pair of a per-dialect catalogue of pairwise different concrete types
-       (28 MySQL, 36 PostgreSQL incl. arrays and user-defined types, 9 SQLite affinity classes).
+       (28 MySQL, 36 PostgreSQL incl. arrays and user-defined types, 9 SQLite affinity classes). Foreign keys: FkDiff.tla gives the flags of a
+       modified composite foreign key (child / referenced column sequences, referenced table, both actions) for all 4,096 ordered pairs of its
+       domain; the three differs must report exactly those. Defaults / attributes: every ordered pair of a catalogue of default spellings
+       (tagged with the class of the value they denote) per column kind, and MySQL charset / collation changes of varchar / text / enum / set / char.
 """
 import json
 import vf
@@ -71,12 +74,23 @@ def run(tier):
     # seed adequacy: every descriptor class the model can produce must be exhibited by the exported pairs
     if len(res["classes"]) < 20:
         raise vf.Infra("exported pairs exhibit only %d change classes" % len(res["classes"]))
+    # foreign-key flags over composite keys: expectations of FkDiff.tla for every ordered pair of its domain
+    rf = vf.tlc("FkDiff", "FkDiff.cfg", keep=True, timeout=600, heap="2g")
+    try:
+        if not rf.ok:
+            raise vf.Infra("FkDiff.tla: the reference violates its own exactness obligations (specification bug):\n" + rf.out[-2000:])
+        fk = vf.run_json([b, __import__('os').path.join(rf.dir, "fkpairs.ndjson"), "fk"], timeout=3600)
+    finally:
+        vf.rm(rf.dir)
+    for m in fk["mismatches"]:
+        v.violation({"dialect": m["dialect"], "mode": "fk", "types": "", "missing_kinds": sorted(set(m["want"]) - set(m["got"])), "spurious_kinds": sorted(set(m["got"]) - set(m["want"])), "error": bool(m.get("err"))},
+                    {"want": m["want"], "got": m["got"], "err": m.get("err"), "from": m["pair"]["from"], "to": m["pair"]["to"]})
     for m in res["mismatches"]:
         case = sig(m)
         v.violation(case, {"want": m["want"], "got": m["got"], "err": m.get("err"), "from": m["pair"]["from"], "to": m["pair"]["to"]})
     v.cov = {"states": stats["all"], "transitions": stats["all"], "traces_validated_against_impl": res["diffs"] - len(res["mismatches"]),
              "pairs_verified_exact_by_tlc": stats["all"], "single_edit_pairs": stats["pairs1"] + stats["pairs2"], "two_edit_pairs": stats["pairs12"],
-             "diffs_run": res["diffs"], "type_matrix_diffs": res.get("type_pairs", 0), "dialects": ["mysql", "postgres", "sqlite"], "change_classes_model": nclasses, "change_classes_exhibited": res["classes"],
+             "diffs_run": res["diffs"], "type_matrix_diffs": res.get("type_pairs", 0), "default_and_attribute_cases": res.get("attr_cases", 0), "fk_pairs": fk["pairs"], "fk_diffs": fk["diffs"], "dialects": ["mysql", "postgres", "sqlite"], "change_classes_model": nclasses, "change_classes_exhibited": res["classes"],
              "exhaustive": True,
              "explanation": "states = (from,to) pairs on which TLC verified Exact; each pair diffed by 3 dialect differs in 4 modes (edit, edit with permuted declaration order, self, permuted self)"}
     v.samples = res["samples"][:2]
